@@ -34,7 +34,7 @@ def run(ctx):
     w, gram = build(ctx)
     I = w.I
     fm = I.global_name("formulas", "formula")
-    site = fsite(ctx, "formulas._str_atoms")
+    site = fsite(ctx, "formulas._str_atoms", "formulas.Formula.__str__")
     T = w.table
     parse = lambda s: I.call(fm, [s], {"table": T})
     text_of = lambda f: I.call(I.builtins["str"], [f], {})
